@@ -58,14 +58,22 @@ def _cases(draw, max_n=3000, max_p=6, lead0=None):
     else:
         case["lead0"] = lead0
     case["container"] = draw(st.sampled_from(["ndarray", "list", "tuple"]))
+    if draw(st.integers(0, 5)) == 0:
+        # integer-typed periods (python ints / integer ndarray), as the repo's own test passes
+        case["dt"] = draw(st.sampled_from([1.0, 0.5, 0.25, 0.1]))
+        case["int_periods"] = draw(st.lists(st.integers(1, 40), min_size=1, max_size=max_p))
+        case["ratios"] = [t / case["dt"] for t in case["int_periods"]]
     return case
 
 
 def _periods(case, with_zero=None):
-    T = [float(r) * case["dt"] for r in case["ratios"]]
     lead = case["lead0"] if with_zero is None else with_zero
-    if lead:
-        T = [0.0] + T
+    if case.get("int_periods"):
+        T = ([0] if lead else []) + [int(t) for t in case["int_periods"]]
+    else:
+        T = [float(r) * case["dt"] for r in case["ratios"]]
+        if lead:
+            T = [0.0] + T
     c = case.get("container", "ndarray")
     if c == "list":
         return list(T)
@@ -89,6 +97,8 @@ def _classify(ctx, case, a):
     ctx.cls("xi=0" if xi == 0 else ("xi>0.99" if xi > 0.99 else "xi-mid"))
     if case["lead0"]:
         ctx.cls("lead0")
+    if case.get("int_periods"):
+        ctx.cls("int-periods")
 
 
 @clause(CLAUSES, "exact", _cases(), quick=350, thorough=2200,
